@@ -97,7 +97,9 @@ func Exec(in *Input, tmpDir string) *Obs {
 		}
 	case "certfile":
 		path := filepath.Join(tmpDir, "in.crt")
-		os.WriteFile(path, in.Data, 0o600)
+		if err := os.WriteFile(path, in.Data, 0o600); err != nil {
+			panic("harness: cannot write the input file: " + err.Error())
+		}
 		var certs []*x509.Certificate
 		o.guard("ReadCertificateFile", func() { certs, _ = nx509.ReadCertificateFile(path) })
 		if len(certs) > 0 {
@@ -108,7 +110,9 @@ func Exec(in *Input, tmpDir string) *Obs {
 		}
 	case "keyfile":
 		path := filepath.Join(tmpDir, "in.key")
-		os.WriteFile(path, in.Data, 0o600)
+		if err := os.WriteFile(path, in.Data, 0o600); err != nil {
+			panic("harness: cannot write the input file: " + err.Error())
+		}
 		o.guard("ReadPrivateKeyFile", func() {
 			if k, err := nx509.ReadPrivateKeyFile(path); err == nil && k != nil {
 				o.Deep = true
